@@ -180,4 +180,183 @@ theorem run_change_handler (h : Heap) (k : HKey) (g : Graph) (o : Id) (old new :
       (by simp [evalAllO, eval, ofArgs, ownArgsV])]
     cases (addNew h k g new (removeOld h k g old H).H).err <;> simp [flowOf, endCall]
 
+
+/-! ### the maintainers of list / dict / set items -/
+
+/-- an outermost call on a heap object, as a statement of a function that holds no undo log -/
+theorem exec_owner_call_obj (h : Heap) (n : Nat) (k : HKey) (g : Graph) (rm : Bool) (y : Id) (args : List (Option Ex))
+    (st : Sto) (hl : st.logs = []) (hw : WF st.H) (hn : need g ≤ n)
+    (hev : evalAllO none st.vars 0 args = some (ownArgs (some y) (.plain g) k rm)) :
+    exec h P (run h P n) none (.callFn "add_or_remove_notifiers" args) st =
+      ({ st with H := (addRemove h k rm true g (some y) st.H).H },
+        flowOf (addRemove h k rm true g (some y) st.H).err) := by
+  rw [exec_callFn]
+  simp only [hl, List.length_nil, hev]
+  unfold viaCallT viaCall
+  simp only [hl]
+  have e := run_arn_outer h k g rm true (some y) st.H n hn
+  simp only [gvOf, if_true] at e
+  rw [e, finishS_eq_finish rm st.H _ (walk_did h k g rm true (some y) st.H [] hw)]
+  have : finish rm (walk h k rm true g (some y) st.H []) = addRemove h k rm true g (some y) st.H := rfl
+  rw [this]
+  cases (addRemove h k rm true g (some y) st.H).err <;> simp [toG, flowOf, hl]
+
+/-- `for item in …: add_or_remove_notifiers(object=item, …, remove=rm)` is `walkAll` -/
+theorem owner_loop (h : Heap) (n : Nat) (k : HKey) (g : Graph) (rm : Bool) (i : Nat) (args : List (Option Ex))
+    (I : Vars → Prop) (hn : need g ≤ n)
+    (hI1 : ∀ vars v, I vars → I (setVar vars i v))
+    (hI2 : ∀ vars y, I vars → evalAllO none (setVar vars i (.obj (some y))) 0 args =
+      some (ownArgs (some y) (.plain g) k rm)) :
+    ∀ (ys : List Id) (st : Sto), st.logs = [] → WF st.H → I st.vars →
+      (forLoop i (fun s => exec h P (run h P n) none (.callFn "add_or_remove_notifiers" args) s)
+        (ys.map (fun y => PV.obj (some y))) st).1.H = (walkAll h k rm g ys st.H).H ∧
+      (forLoop i (fun s => exec h P (run h P n) none (.callFn "add_or_remove_notifiers" args) s)
+        (ys.map (fun y => PV.obj (some y))) st).1.logs = [] ∧
+      (forLoop i (fun s => exec h P (run h P n) none (.callFn "add_or_remove_notifiers" args) s)
+        (ys.map (fun y => PV.obj (some y))) st).2 = flowOf (walkAll h k rm g ys st.H).err ∧
+      I (forLoop i (fun s => exec h P (run h P n) none (.callFn "add_or_remove_notifiers" args) s)
+        (ys.map (fun y => PV.obj (some y))) st).1.vars := by
+  intro ys
+  induction ys with
+  | nil => intro st hl _ hI; exact ⟨rfl, hl, rfl, hI⟩
+  | cons y ys ih =>
+    intro st hl hw hI
+    simp only [List.map_cons, forLoop, walkAll, foldRes]
+    rw [exec_owner_call_obj h n k g rm y args { st with vars := setVar st.vars i (.obj (some y)) } hl hw hn
+      (hI2 st.vars y hI)]
+    cases hx : (addRemove h k rm true g (some y) st.H).err with
+    | some e => exact ⟨rfl, hl, rfl, hI1 _ _ hI⟩
+    | none =>
+      have hf : flowOf (none : Option Exc) = .next := rfl
+      simp only [hf]
+      have := ih { st with H := (addRemove h k rm true g (some y) st.H).H, vars := setVar st.vars i (.obj (some y)) }
+        hl (addRemove_WF h k g rm true (some y) st.H hw) (hI1 _ _ hI)
+      simpa [walkAll] using this
+
+theorem walkAll_WF (h : Heap) (k : HKey) (rm : Bool) (g : Graph) (ys : List Id) (H : Hooks) (hw : WF H) :
+    WF (walkAll h k rm g ys H).H := by
+  induction ys generalizing H with
+  | nil => exact hw
+  | cons y ys ih =>
+    simp only [walkAll, List.map_cons, foldRes]
+    have := addRemove_WF h k g rm true (some y) H hw
+    cases (addRemove h k rm true g (some y) H).err with
+    | some e => exact this
+    | none => exact ih _ this
+
+/-- the change event a container hands to its maintainers -/
+def ceventPV (ev : CEvent) : PV :=
+  match ev with
+  | .list _ r a => .cevent .list r a
+  | .dict r a => .cevent .dict (r.map (·.2)) (a.map (·.2))
+  | .set r a => .cevent .set r a
+
+def contHandlerName : CEvent → String
+  | .list .. => "list_observer_change_handler"
+  | .dict .. => "dict_observer_change_handler"
+  | .set .. => "set_observer_change_handler"
+
+def contHandlerArgs (ev : CEvent) (g : Graph) (k : HKey) : List (Option PV) :=
+  [some (ceventPV ev), some (.graph (.plain g)), some (.handler k.handler), some (.obj (some k.target)), some .disp]
+
+
+theorem cont_body (h : Heap) (n : Nat) (k : HKey) (g : Graph) (i1 i2 : Nat) (e1 e2 : Ex)
+    (args1 args2 : List (Option Ex)) (rem add : List Id) (I : Vars → Prop) (hn : need g ≤ n)
+    (he1 : ∀ vars, I vars → eval none vars 0 e1 = some (.ids rem))
+    (he2 : ∀ vars, I vars → eval none vars 0 e2 = some (.ids add))
+    (hI1 : ∀ vars v, I vars → I (setVar vars i1 v)) (hI2 : ∀ vars v, I vars → I (setVar vars i2 v))
+    (hA1 : ∀ vars y, I vars → evalAllO none (setVar vars i1 (.obj (some y))) 0 args1 =
+      some (ownArgs (some y) (.plain g) k true))
+    (hA2 : ∀ vars y, I vars → evalAllO none (setVar vars i2 (.obj (some y))) 0 args2 =
+      some (ownArgs (some y) (.plain g) k false))
+    (st : Sto) (hl : st.logs = []) (hw : WF st.H) (hI0 : I st.vars) :
+    endCall (exec h P (run h P n) none
+      (.seq (.forIn i1 e1 (.callFn "add_or_remove_notifiers" args1))
+        (.forIn i2 e2 (.callFn "add_or_remove_notifiers" args2))) st) =
+      (((match (walkAll h k true g rem st.H).err with
+          | some e => (⟨(walkAll h k true g rem st.H).H, some e⟩ : Res)
+          | none => walkAll h k false g add (walkAll h k true g rem st.H).H).H, []),
+       flowOf (match (walkAll h k true g rem st.H).err with
+          | some e => (⟨(walkAll h k true g rem st.H).H, some e⟩ : Res)
+          | none => walkAll h k false g add (walkAll h k true g rem st.H).H).err) := by
+  have hlen : st.logs.length = 0 := by rw [hl]; rfl
+  rw [exec_seq, exec_forIn]
+  simp only [hlen, he1 st.vars hI0]
+  obtain ⟨a1, a2, a3, a4⟩ := owner_loop h n k g true i1 args1 I hn hI1 hA1 rem st hl hw hI0
+  generalize forLoop i1 _ _ st = r1 at a1 a2 a3 a4
+  obtain ⟨st1, fl1⟩ := r1
+  simp only at a1 a2 a3 a4
+  cases hx : (walkAll h k true g rem st.H).err with
+  | some e =>
+    rw [hx] at a3
+    simp only [flowOf] at a3
+    subst a3
+    simp [endCall, a1, a2, flowOf]
+  | none =>
+    rw [hx] at a3
+    simp only [flowOf] at a3
+    subst a3
+    simp only
+    have hlen1 : st1.logs.length = 0 := by rw [a2]; rfl
+    rw [exec_forIn]
+    simp only [hlen1, he2 st1.vars a4]
+    obtain ⟨b1, b2, b3, _⟩ := owner_loop h n k g false i2 args2 I hn hI2 hA2 add st1 a2
+      (by rw [a1]; exact walkAll_WF h k true g rem st.H hw) a4
+    generalize forLoop i2 _ _ st1 = r2 at b1 b2 b3
+    obtain ⟨st2, fl2⟩ := r2
+    simp only at b1 b2 b3
+    rw [a1] at b1 b3
+    subst b3
+    cases (walkAll h k false g add (walkAll h k true g rem st.H).H).err <;> simp [endCall, b1, b2, flowOf]
+
+/-- SOURCE TIE.  The `_observer_change_handler` of ListItemObserver / DictItemObserver / SetItemObserver as translated
+from the three modules — `for item in event.removed[.values()]: add_or_remove_notifiers(…, remove=True)`, then the
+same over `event.added` with remove=False; the first exception propagates — is `maintCont`. -/
+theorem run_cont_handler (h : Heap) (k : HKey) (g : Graph) (ev : CEvent) (H : Hooks) (hw : WF H) (n : Nat)
+    (hn : need g ≤ n) :
+    run h P (n + 1) (.fn (contHandlerName ev) (contHandlerArgs ev g k)) (H, []) =
+      (((maintCont h g k ev H).H, []), flowOf (maintCont h g k ev H).err) := by
+  have key : ∀ (c : PV) (e1 e2 : Ex) (rem add : List Id),
+      (∀ vars : Vars, vars 0 = c → eval none vars 0 e1 = some (.ids rem)) →
+      (∀ vars : Vars, vars 0 = c → eval none vars 0 e2 = some (.ids add)) →
+      endCall (exec h P (run h P n) none
+        (.seq (.forIn 5 e1 (.callFn "add_or_remove_notifiers" [(some (.var 5)), (some (.var 1)), (some (.var 2)),
+            (some (.var 3)), (some (.var 4)), (some (.boolLit true)), none]))
+          (.forIn 6 e2 (.callFn "add_or_remove_notifiers" [(some (.var 6)), (some (.var 1)), (some (.var 2)),
+            (some (.var 3)), (some (.var 4)), (some (.boolLit false)), none])))
+        ⟨H, [], ofArgs [c, .graph (.plain g), .handler k.handler, .obj (some k.target), .disp], none⟩) =
+      (((match (walkAll h k true g rem H).err with
+          | some e => (⟨(walkAll h k true g rem H).H, some e⟩ : Res)
+          | none => walkAll h k false g add (walkAll h k true g rem H).H).H, []),
+       flowOf (match (walkAll h k true g rem H).err with
+          | some e => (⟨(walkAll h k true g rem H).H, some e⟩ : Res)
+          | none => walkAll h k false g add (walkAll h k true g rem H).H).err) := by
+    intro c e1 e2 rem add he1 he2
+    refine cont_body h n k g 5 6 e1 e2 _ _ rem add
+      (fun vars => vars 0 = c ∧ vars 1 = .graph (.plain g) ∧ vars 2 = .handler k.handler ∧
+        vars 3 = .obj (some k.target) ∧ vars 4 = .disp) hn
+      (fun vars hI => he1 vars hI.1) (fun vars hI => he2 vars hI.1) ?_ ?_ ?_ ?_ _ rfl hw ?_
+    · intro vars v hI; simpa [setVar] using hI
+    · intro vars v hI; simpa [setVar] using hI
+    · intro vars y ⟨_, v1, v2, v3, v4⟩
+      simp [evalAllO, eval, setVar, v1, v2, v3, v4, ownArgs]
+    · intro vars y ⟨_, v1, v2, v3, v4⟩
+      simp [evalAllO, eval, setVar, v1, v2, v3, v4, ownArgs]
+    · simp [ofArgs]
+  cases ev with
+  | list i r a =>
+    rw [run_fn h P n _ _ _ _ [.cevent .list r a, .graph (.plain g), .handler k.handler, .obj (some k.target), .disp]
+      (by rfl) (by rfl) (by rfl)]
+    exact key _ _ _ r a (fun vars hv => by simp [eval, hv]) (fun vars hv => by simp [eval, hv])
+  | dict r a =>
+    rw [run_fn h P n _ _ _ _ [.cevent .dict (r.map (·.2)) (a.map (·.2)), .graph (.plain g), .handler k.handler,
+      .obj (some k.target), .disp] (by rfl) (by rfl) (by rfl)]
+    exact key (.cevent .dict (r.map (·.2)) (a.map (·.2))) (.valuesOf (.evRemoved (.var 0)))
+      (.valuesOf (.evAdded (.var 0))) (r.map (·.2)) (a.map (·.2))
+      (fun vars hv => by simp [eval, hv]) (fun vars hv => by simp [eval, hv])
+  | set r a =>
+    rw [run_fn h P n _ _ _ _ [.cevent .set r a, .graph (.plain g), .handler k.handler, .obj (some k.target), .disp]
+      (by rfl) (by rfl) (by rfl)]
+    exact key _ _ _ r a (fun vars hv => by simp [eval, hv]) (fun vars hv => by simp [eval, hv])
+
 end TraitsVerif.Model.ObsL
